@@ -94,6 +94,10 @@ func (m *DistrStakingMigrate) Execute(ctx sdk.Context, cdc codec.BinaryCodec, fr
 		stakingStore.Delete(delegateIterator.Key())
 		stakingStore.Set(stakingtypes.GetDelegationKey(to.Bytes(), validatorAddr), stakingtypes.MustMarshalDelegation(cdc, info))
 
+		// staking delegate by validator index
+		stakingStore.Delete(stakingtypes.GetDelegationsByValKey(validatorAddr, from))
+		stakingStore.Set(stakingtypes.GetDelegationsByValKey(validatorAddr, to.Bytes()), []byte{})
+
 		events = append(events,
 			sdk.NewEvent(
 				types.EventTypeMigrateStakingDelegate,
